@@ -5,7 +5,7 @@ use std::future::Future;
 use std::pin::Pin;
 use std::task::{Context, Poll, Waker};
 
-pub type BoxFut<'a> = Pin<Box<dyn Future<Output = ()> + 'a>>;
+pub type BoxFut<'a> = Pin<Box<dyn Future<Output = ()> + Send + 'a>>;
 
 pub fn block_on<F: Future>(fut: F) -> F::Output {
     let mut fut = std::pin::pin!(fut);
@@ -42,13 +42,25 @@ impl Future for YieldNow {
 
 pub struct JoinFut<'a> {
     tasks: Vec<Option<BoxFut<'a>>>,
+    /// low 3 bits: which live task to poll; bit 3 (with `migrate`): poll it on a fresh thread
     schedule: &'a [u8],
+    migrate: bool,
     pos: usize,
     rr: usize,
+    /// called on the fresh thread right after a migrated poll returned (observes what it left behind)
+    after_foreign_poll: &'a (dyn Fn() + Sync),
+    /// first panic caught on a migrated poll
+    fail: &'a std::sync::Mutex<Option<vcore::Fail>>,
 }
 
-pub fn join<'a>(tasks: Vec<BoxFut<'a>>, schedule: &'a [u8]) -> JoinFut<'a> {
-    JoinFut { tasks: tasks.into_iter().map(Some).collect(), schedule, pos: 0, rr: 0 }
+pub fn join<'a>(
+    tasks: Vec<BoxFut<'a>>,
+    schedule: &'a [u8],
+    migrate: bool,
+    after_foreign_poll: &'a (dyn Fn() + Sync),
+    fail: &'a std::sync::Mutex<Option<vcore::Fail>>,
+) -> JoinFut<'a> {
+    JoinFut { tasks: tasks.into_iter().map(Some).collect(), schedule, migrate, pos: 0, rr: 0, after_foreign_poll, fail }
 }
 
 impl<'a> Future for JoinFut<'a> {
@@ -59,17 +71,46 @@ impl<'a> Future for JoinFut<'a> {
         if live.is_empty() {
             return Poll::Ready(());
         }
-        let k = if this.pos < this.schedule.len() {
-            let k = this.schedule[this.pos] as usize % live.len();
+        let (k, elsewhere) = if this.pos < this.schedule.len() {
+            let v = this.schedule[this.pos];
             this.pos += 1;
-            k
+            ((v & 7) as usize % live.len(), this.migrate && v & 8 != 0)
         } else {
             let k = this.rr % live.len();
             this.rr += 1;
-            k
+            (k, false)
         };
         let i = live[k];
-        if this.tasks[i].as_mut().unwrap().as_mut().poll(cx).is_ready() {
+        let task = this.tasks[i].as_mut().unwrap();
+        let ready = if elsewhere {
+            // like a work-stealing runtime resuming a spawned task on another worker: this poll runs on
+            // a fresh thread (nothing ambient there), the next one may be back on the joining thread
+            let hook = this.after_foreign_poll;
+            let r = std::thread::scope(|s| {
+                s.spawn(|| {
+                    vcore::catch(|| {
+                        let ready = task.as_mut().poll(&mut Context::from_waker(Waker::noop())).is_ready();
+                        hook();
+                        ready
+                    })
+                })
+                .join()
+            });
+            match r {
+                Ok(Ok(ready)) => ready,
+                Ok(Err(f)) => {
+                    this.fail.lock().unwrap().get_or_insert(f);
+                    true
+                }
+                Err(_) => {
+                    this.fail.lock().unwrap().get_or_insert(vcore::Fail::new("panic@poll-thread", "poll thread died"));
+                    true
+                }
+            }
+        } else {
+            task.as_mut().poll(cx).is_ready()
+        };
+        if ready {
             this.tasks[i] = None;
         }
         if this.tasks.iter().all(|t| t.is_none()) {
